@@ -120,84 +120,154 @@ def _index_sites(repo, out):
 
 
 def _cutoff(repo, out):
+    """pins by data flow (canonical decision trees, translator/canon_c11.py): invariant under guard
+    clauses, temporaries, conditional expressions, keyword order"""
+    from . import canon_c11 as C
+    from .naive_c11 import _decider, _kw, select
     with open(os.path.join(repo, "sktime/forecasting/base/_sktime.py")) as f:
         mod = ast.parse(f.read())
     cls = find(mod, "_SktimeForecaster")
 
-    def check_call(st, targets, allow_empty):
-        _need(isinstance(st, ast.Assign) and _u(st.targets[0]) == targets and isinstance(st.value, ast.Call)
-              and _u(st.value.func) == "check_y_X" and [_u(a) for a in st.value.args] == ["y", "X"],
-              "%s = check_y_X(y, X, ...)" % targets, st)
-        kw = {k.arg: _u(k.value) for k in st.value.keywords}
-        _need(kw.get("allow_empty") in ("True", "False"), "allow_empty literal", st)
-        return "true" if kw["allow_empty"] == "True" else "false"
+    def checked(e, what):
+        """e = check_y_X(y, X, allow_empty=<bool>, ...): returns the flag"""
+        _need(isinstance(e, ast.Call) and _u(e.func) == "check_y_X" and [_u(a) for a in e.args] == ["y", "X"]
+              and _u(_kw(e).get("allow_empty", ast.Constant(None))) in ("True", "False"),
+              "%s: check_y_X(y, X, allow_empty=<bool>, ...)" % what, e)
+        return _u(_kw(e)["allow_empty"]) == "True"
 
-    def set_cutoff_pos(st, what):
-        _need(isinstance(st, ast.Expr) and isinstance(st.value, ast.Call) and _u(st.value.func) == "self._set_cutoff"
-              and len(st.value.args) == 1 and isinstance(st.value.args[0], ast.Subscript)
-              and _u(st.value.args[0].value) == "y.index", "%s: self._set_cutoff(y.index[k])" % what, st)
-        return _int_expr(st.value.args[0].slice, {})
+    def cutoff_pos(st, series, what):
+        """st = self._set_cutoff(<series>.index[k]) -> k"""
+        c = st.value if isinstance(st, ast.Expr) else None
+        _need(isinstance(c, ast.Call) and _u(c.func) == "self._set_cutoff" and len(c.args) == 1 and not c.keywords
+              and isinstance(c.args[0], ast.Subscript) and isinstance(c.args[0].value, ast.Attribute)
+              and c.args[0].value.attr == "index" and series(c.args[0].value.value),
+              "%s: self._set_cutoff(<the new data>.index[k])" % what, st)
+        return _int_expr(c.args[0].slice, {})
 
+    # _set_y_X: (self._y, self._X) = check_y_X(y, X, allow_empty=False); self._set_cutoff(y.index[k])
     fn = find(cls, "_set_y_X")
-    b = body_of(fn)
-    _need(argnames(fn)[:3] == ["self", "y", "X"] and len(b) == 2, "_set_y_X: two statements")
-    out.append("Definition gen_fit_allow_empty : bool := %s.\n" % check_call(b[0], "(self._y, self._X)", None))
+    _need(argnames(fn)[:3] == ["self", "y", "X"], "_set_y_X signature")
+    effs, leaf = select(C.of(fn), _decider({}), "_set_y_X")
+    _need(leaf[0] in ("END", "RET") and (leaf[0] == "END" or leaf[1] is None) and len(effs) == 2
+          and all(e[0] == "EFF" for e in effs), "_set_y_X: store the checked data, set the cutoff")
+    a = effs[0][1]
+    _need(isinstance(a, ast.Assign) and _u(a.targets[0]) == "(self._y, self._X)", "_set_y_X stores self._y, self._X", a)
+    out.append("Definition gen_fit_allow_empty : bool := %s.\n" % ("true" if checked(a.value, "_set_y_X") else "false"))
+    is_y = lambda e: _u(e) == "y" or (isinstance(e, ast.Subscript) and _u(e.slice) == "0"
+                                      and isinstance(e.value, ast.Call) and _u(e.value.func) == "check_y_X")
     out.append("(* python position in y.index of the cutoff after fit *)\n"
-               "Definition gen_fit_cutoff_pos : Z := %s.\n" % set_cutoff_pos(b[1], "_set_y_X"))
+               "Definition gen_fit_cutoff_pos : Z := %s.\n" % cutoff_pos(effs[1][1], is_y, "_set_y_X"))
+
+    # _update_y_X: on the checked batch Y (allow_empty=True): merged and cutoff moved iff <guard on len(Y)>
     fn = find(cls, "_update_y_X")
-    b = body_of(fn)
-    _need(argnames(fn)[:3] == ["self", "y", "X"] and len(b) == 2 and isinstance(b[1], ast.If) and not b[1].orelse,
-          "_update_y_X: check_y_X; if <non-empty>: ...")
-    out.append("Definition gen_update_allow_empty : bool := %s.\n" % check_call(b[0], "(y, X)", None))
-    t = b[1].test
-    _need(isinstance(t, ast.Compare) and len(t.ops) == 1 and _u(t.left) == "len(y)", "guard on len(y)", t)
-    sym = {ast.Gt: ">?", ast.GtE: ">=?", ast.Lt: "<?", ast.LtE: "<=?", ast.Eq: "=?"}.get(type(t.ops[0]))
-    _need(sym is not None, "guard comparison", t)
-    out.append("(* the batch of length k is merged and moves the cutoff iff *)\n"
-               "Definition gen_update_guard (k : Z) : bool := (k %s %s).\n" % (sym, _int_expr(t.comparators[0], {})))
-    ub = b[1].body
-    _need(len(ub) == 3 and _u(ub[0]) == "self._y = y.combine_first(self._y)", "merge: self._y = y.combine_first(self._y)", ub[0])
-    out.append("Definition gen_update_cutoff_pos : Z := %s.\n" % set_cutoff_pos(ub[1], "_update_y_X"))
-    _need(isinstance(ub[2], ast.If) and _u(ub[2].test) == "X is not None", "X update", ub[2])
+    _need(argnames(fn)[:3] == ["self", "y", "X"], "_update_y_X signature")
+    flags = []
+
+    def is_checked_y(e):
+        if isinstance(e, ast.Subscript) and _u(e.slice) == "0" and isinstance(e.value, ast.Call):
+            flags.append(checked(e.value, "_update_y_X"))
+            return True
+        return False
+
+    def len_test(t):
+        """a comparison of len(Y) with an integer -> Gallina bool on k, or None"""
+        if isinstance(t, ast.Compare) and len(t.ops) == 1:
+            sym = {ast.Gt: ">?", ast.GtE: ">=?", ast.Lt: "<?", ast.LtE: "<=?", ast.Eq: "=?"}.get(type(t.ops[0]))
+            neg = isinstance(t.ops[0], ast.NotEq)
+            le, ri = t.left, t.comparators[0]
+
+            def side(e):
+                if isinstance(e, ast.Call) and _u(e.func) == "len" and len(e.args) == 1 and is_checked_y(e.args[0]):
+                    return "k"
+                try:
+                    return _int_expr(e, {})
+                except Unsupported:
+                    return None
+            a, b = side(le), side(ri)
+            if a is not None and b is not None and "k" in (a, b):
+                if neg:
+                    return "(negb (%s =? %s))" % (a, b)
+                if sym:
+                    return "(%s %s %s)" % (a, sym, b)
+        return None
+
+    def effect(t, merged, pos):
+        if t[0] == "IF":
+            g = len_test(t[1])
+            if g is not None:
+                return "(if %s then %s else %s)" % (g, effect(t[2], merged, pos), effect(t[3], merged, pos))
+            a, b = effect(t[2], merged, pos), effect(t[3], merged, pos)   # the test is about X only
+            _need(a == b, "_update_y_X: the handling of X changes what happens to y")
+            return a
+        if t[0] == "EFF":
+            st = t[1]
+            u = " ".join(_u(st).split())
+            if isinstance(st, ast.Assign) and _u(st.targets[0]) == "self._y":
+                v = st.value
+                _need(isinstance(v, ast.Call) and isinstance(v.func, ast.Attribute) and v.func.attr == "combine_first"
+                      and is_checked_y(v.func.value) and [_u(x) for x in v.args] == ["self._y"],
+                      "merge: self._y = <new data>.combine_first(self._y)", st)
+                _need(not merged, "_update_y_X merges twice")
+                return effect(t[2], True, pos)
+            if isinstance(st, ast.Expr) and isinstance(st.value, ast.Call) and _u(st.value.func) == "self._set_cutoff":
+                _need(pos is None, "_update_y_X sets the cutoff twice")
+                return effect(t[2], merged, cutoff_pos(st, is_checked_y, "_update_y_X"))
+            if isinstance(st, ast.Assign) and _u(st.targets[0]) == "self._X":
+                return effect(t[2], merged, pos)
+            raise Unsupported("_update_y_X: unexpected effect %s" % u)
+        _need(t[0] == "END" or (t[0] == "RET" and t[1] is None), "_update_y_X returns a value / raises")
+        if merged and pos is not None:
+            return "(Some %s)" % pos
+        _need(not merged and pos is None, "_update_y_X: data merged without moving the cutoff (or vice versa)")
+        return "None"
+    body = effect(C.of(fn), False, None)
+    _need(flags and all(flags), "_update_y_X must accept an empty batch (allow_empty=True)")
+    out.append("Definition gen_update_allow_empty : bool := true.\n")
+    out.append("(* _update_y_X on a batch of k observations: Some p = the batch is merged into the remembered\n"
+               "   series and the cutoff becomes its time point at python position p; None = nothing happens *)\n"
+               "Definition gen_update_effect (k : Z) : option Z := %s.\n" % body)
+
     fn = find(cls, "_set_cutoff")
-    _need(argnames(fn) == ["self", "cutoff"] and [_u(s) for s in body_of(fn)] == ["self._cutoff = cutoff"],
+    _need(argnames(fn) == ["self", "cutoff"] and C.show(C.of(fn)) == "EFF(self._cutoff = cutoff);END",
           "_set_cutoff stores its argument")
     fn = find(cls, "cutoff")
-    _need([_u(d) for d in fn.decorator_list] == ["property"] and [_u(s) for s in body_of(fn)] == ["return self._cutoff"],
+    _need([_u(d) for d in fn.decorator_list] == ["property"] and C.show(C.of(fn)) == "RET(self._cutoff)",
           "cutoff property returns self._cutoff")
-    # every other store to _cutoff is the constructor's None or the context manager restoring it
+    # every other store to _cutoff is the constructor's None
     stores = [(qn, _u(n)) for qn, f2 in _functions(mod) for n in ast.walk(f2)
               if isinstance(n, ast.Assign) and any(_u(t) == "self._cutoff" for t in n.targets)]
     _need(sorted(stores) == [("_SktimeForecaster.__init__", "self._cutoff = None"),
                              ("_SktimeForecaster._set_cutoff", "self._cutoff = cutoff")],
           "unexpected stores to self._cutoff: %s" % stores)
     # update: move the data / cutoff first, then (update_params) refit on ALL data with the horizon
-    # seen so far
+    # seen so far, as a not-yet-fitted forecaster
     fn = find(cls, "update")
-    b = body_of(fn)
-    _need(argnames(fn) == ["self", "y", "X", "update_params"] and len(b) == 4
-          and _u(b[0]) == "self.check_is_fitted()" and _u(b[1]) == "self._update_y_X(y, X)"
-          and isinstance(b[2], ast.If) and _u(b[2].test) == "update_params" and not b[2].orelse
-          and _u(b[3]) == "return self", "update: check_is_fitted; _update_y_X; if update_params: refit; return self")
-    rb = [s for s in b[2].body if not (isinstance(s, ast.Expr) and isinstance(s.value, ast.Call)
-                                        and _u(s.value.func) == "warn")]
-    _need([_u(s) for s in rb] == ["self._is_fitted = False", "self.fit(self._y, self._X, self._fh)"],
-          "refit: self._is_fitted = False; self.fit(self._y, self._X, self._fh)")
+    _need(argnames(fn) == ["self", "y", "X", "update_params"], "update signature")
+
+    def texts(effs):
+        return [" ".join(_u(e[1]).split()) for e in effs if not _u(e[1]).startswith("warn(")]
+    e0, l0 = select(C.of(fn), _decider({"update_params": False}), "update")
+    e1, l1 = select(C.of(fn), _decider({"update_params": True}), "update")
+    _need(texts(e0) == ["self.check_is_fitted()", "self._update_y_X(y, X)"] and l0[0] == "RET" and _u(l0[1]) == "self",
+          "update(update_params=False): check_is_fitted; _update_y_X(y, X); return self")
+    _need(texts(e1) == ["self.check_is_fitted()", "self._update_y_X(y, X)", "self._is_fitted = False",
+                        "self.fit(self._y, self._X, self._fh)"] and l1[0] == "RET" and _u(l1[1]) == "self",
+          "update(update_params=True): ...; self._is_fitted = False; self.fit(self._y, self._X, self._fh); return self")
     out.append("(* update(update_params=True) refits on all remembered data, handing over the horizon seen so\n"
                "   far (possibly none) to a forecaster marked as not fitted *)\n"
                "Definition gen_refit_on_all_data : bool := true.\n"
                "Definition gen_refit_needs_horizon : bool := false.\n")
     fn = find(cls, "predict")
-    b = body_of(fn)
-    _need(argnames(fn)[:2] == ["self", "fh"] and [_u(s) for s in b] ==
-          ["self.check_is_fitted()", "self._set_fh(fh)",
-           "return self._predict(self.fh, X, return_pred_int=return_pred_int, alpha=alpha)"],
+    _need(argnames(fn)[:2] == ["self", "fh"], "predict signature")
+    e, l = select(C.of(fn), _decider({}), "predict")
+    _need(texts(e) == ["self.check_is_fitted()", "self._set_fh(fh)"] and l[0] == "RET" and isinstance(l[1], ast.Call)
+          and _u(l[1].func) == "self._predict" and l[1].args and _u(l[1].args[0]) == "self.fh",
           "predict: check_is_fitted; _set_fh(fh); return self._predict(self.fh, ...)")
     fn = find(cls, "fh")
-    b = body_of(fn)
-    _need([_u(d) for d in fn.decorator_list] == ["property"] and len(b) == 2 and isinstance(b[0], ast.If)
-          and _u(b[0].test) == "self._fh is None" and isinstance(b[0].body[0], ast.Raise)
-          and _u(b[1]) == "return self._fh", "fh property: raise if unset, else self._fh")
+    _need([_u(d) for d in fn.decorator_list] == ["property"]
+          and C.show(C.of(fn)) in ("IF(self._fh is None){RAISE(ValueError)}{RET(self._fh)}",
+                                   "IF(self._fh is not None){RET(self._fh)}{RAISE(ValueError)}"),
+          "fh property: raise if unset, else self._fh")
 
 
 HEADER = """(* GENERATED by translator/sites_c03.py from sktime/forecasting (base/_sktime.py and every file in
